@@ -503,6 +503,7 @@ def parser_rules(P, R):
     R.floor('C12.COPY.1', 1)
     expansion_total(P, R, pf)
     expansion_count(P, R, pf)
+    rules.no_static_locals(P, R, 'C12.WMC.1', c13.scope(P) + [P.need_fn('irc_ntop')], 'address parser and printer')
     mapped_form(P, R, pf)
     syntax_only(P, R, pf)
 
